@@ -1,8 +1,9 @@
 import SluVerif.Props.C11
-import SluVerif.Props.LU
+import SluVerif.Props.C01
 #print axioms Slu.factor_identity
 #print axioms Slu.factor_permR_isPerm
 #print axioms Slu.Equil.gssvx_equil_frame
 #print axioms Slu.Equil.gssvx_equil_outputs
 #print axioms Slu.Equil.gssvx_factored_outputs
 #print axioms Slu.Equil.equil_solve_sound
+#print axioms Slu.solve_correct
